@@ -15,7 +15,7 @@ RULE = ("(a) cell sweep: for every (operation x operand-type combination x plain
         "ignore_errors); every completing run must have the canonical trace of the first. Non-trivial = the compared "
         "runs differ in a secret value that feeds a comparison, division, index, bit decomposition or guard and the "
         "trace has >= 1 constraint; distinct by digest of (program, input vectors).")
-RULE += " Extensions (seeded rounds 10-15): lazily produced operands of the linalg helpers, values read back and fed to the next @snark call, three-argument pow, unpacking of raw wires."
+RULE += " Extensions (seeded rounds 10-15): lazily produced operands of the linalg helpers, values read back and fed to the next @snark call, three-argument pow, unpacking of raw wires, every operation (val() included) applied twice to the same objects."
 
 
 OPS_C06 = [n for n in ir.OPS if n != "val"]
@@ -73,7 +73,10 @@ def grid_shard(cells, b, p):
         spools = [[0, 1] if ts[pos] == "B" else ipool for pos in sec_pos]
         for cvals in itertools.product(*cpools):
             for shape, modes in (("flat", ["normal", "ignore"]), ("g1", ["guard0", "guard1"]),
-                                 ("g2", ["guard00", "guard01", "guard10", "guard11"])):
+                                 ("g2", ["guard00", "guard01", "guard10", "guard11"]),
+                                 # the operation a second time on the same objects (a value revealed or asserted twice, a
+                                 # comparison repeated): whatever an object remembers about itself must not depend on its value
+                                 ("twice", ["twice", "ignore+twice"])):
                 ref_c = None
                 ref_case = None
                 for svals in itertools.product(*spools):
@@ -84,7 +87,9 @@ def grid_shard(cells, b, p):
                         for pos, v in zip(sec_pos, svals):
                             vals[pos] = v
                         args = [(t, "priv" if i % 2 == 0 else "pub", v) for i, (t, v) in enumerate(zip(ts, vals))]
-                        prog = opgrid.single({"p": p, "b": b, "r": 2, "ignore": False}, name, args, mode)
+                        prog = opgrid.single({"p": p, "b": b, "r": 2, "ignore": False}, name, args, mode.replace("twice", "normal"))
+                        if shape == "twice":
+                            prog["stmts"].append(copy.deepcopy(prog["stmts"][-1]))
                         m = ir.run_program(prog)
                         if m.raised is not None:
                             stats.case(None, False, ("run:raised",))
@@ -250,7 +255,7 @@ def run(ctx):
     ctx.assumptions = ["recorder backend; canonical form compares coefficients modulo the field prime",
                        "plain constants are part of the program, only PubVal/PrivVal inputs vary"]
     cells = []
-    for name in OPS_C06:
+    for name in OPS_C06 + ["val"]:          # (val() alone: its plain result is not fed to anything here)
         for ts in opgrid.type_combos(name):
             if any(t in "LA" for t in ts) or len(ts) > 3:
                 continue
